@@ -467,6 +467,12 @@ func (c *Ctx) Finish(meta propMeta) int {
 	for k, v := range c.extra {
 		cov[k] = v
 	}
+	if st := os.Getenv("GVERIF_SELFTEST"); st != "" {
+		var v interface{}
+		if json.Unmarshal([]byte(st), &v) == nil {
+			cov["selftest"] = v
+		}
+	}
 	seed := 0
 	fmt.Sscanf(os.Getenv("VERIF_SEED"), "%d", &seed)
 	ev := evidence{PropertyID: c.Prop, Tier: c.Tier, Seed: seed, Level: "other", Coverage: cov,
